@@ -153,6 +153,33 @@ def layoutKids (cb : CB) (cbH : Len) (x : Rat) (inhDir : Dir) (inhFs : Rat) : Li
     pure (a ++ b)
 end
 
+/-- One laid-out box together with the arguments `block_level_width` saw: containing block, start
+position, and the used values of `resolve_percentages` (for the refinement theorems of Props/C05Refine). -/
+structure Placed where
+  cb : CB
+  x : Rat
+  g : Geo
+  u : Used
+  dir : Dir                     -- the box's own direction
+  deriving Repr
+
+mutual
+/-- `layoutNode` keeping, for every box, what it was laid out in (same recursion, same order). -/
+def layoutNodeT (cb : CB) (cbH : Len) (x : Rat) (inhDir : Dir) (inhFs : Rat) : Node → Except BErr (List Placed)
+  | .mk s kids => do
+    let fs := match s.fontSize with | some f => f | none => inhFs
+    let dir := match s.dir with | some d => d | none => inhDir
+    let (g, u) ← layoutBox cb cbH x fs s
+    let rest ← layoutKidsT (.box g.w dir) u.height g.contentX dir fs kids
+    pure ({ cb, x, g, u, dir } :: rest)
+def layoutKidsT (cb : CB) (cbH : Len) (x : Rat) (inhDir : Dir) (inhFs : Rat) : List Node → Except BErr (List Placed)
+  | [] => pure []
+  | n :: ns => do
+    let a ← layoutNodeT cb cbH x inhDir inhFs n
+    let b ← layoutKidsT cb cbH x inhDir inhFs ns
+    pure (a ++ b)
+end
+
 /-- The page box: `resolve_percentages(page, device_size)`, `page_width`, `page_height`. -/
 def layoutPage (devW devH : Rat) (fs : Rat) (s : NStyle) : Except BErr (Geo × Rat) := do
   let style ← computeStyle fs s
